@@ -59,7 +59,8 @@ class Target:
 
 def akai_target(chk: Check, wrap_mdf: bool, work: str) -> Target:
     cases = [c for c in c01.generate(chk, 64, chk.seed + 21, label="AKAI image for C11", nsect=28, maxparts=1, maxvols=2, maxfiles=3)
-             if sum(len(v["files"]) for p in c["parts"] for v in p["vols"]) >= 3 and len(c["parts"][0]["vols"]) >= 2]
+             if sum(1 for p in c["parts"] for v in p["vols"] for f in v["files"] if f["ftype"] in (0x73, 0xF3)) >= 3
+             and len(c["parts"][0]["vols"]) >= 2]
     cases.sort(key=lambda c: -sum(len(f["chain"]) for p in c["parts"] for v in p["vols"] for f in v["files"]))
     case = cases[0]
     image = aw.build_image(case, chk.seed)
